@@ -7,6 +7,7 @@ import (
 	"fmt"
 	"io"
 	"io/ioutil"
+	"math"
 	"net/http"
 	"path"
 	"strconv"
@@ -603,7 +604,13 @@ func contextFromHeaders(parent context.Context, h http.Header) (context.Context,
 				unit = time.Nanosecond
 			}
 			if unit != 0 {
-				ctx, cancel = context.WithTimeout(ctx, time.Duration(timeoutVal)*unit)
+				d := time.Duration(math.MaxInt64)
+				if timeoutVal <= int64(d/unit) {
+					d = time.Duration(timeoutVal) * unit
+				}
+				// (a value too large for a time.Duration saturates
+				// instead of wrapping around to a deadline in the past)
+				ctx, cancel = context.WithTimeout(ctx, d)
 			}
 		}
 	}
